@@ -124,13 +124,17 @@ func runC16(w *World, r *Report) {
 		}},
 		{"Confirm", ").CreateLeaf", argPaths("_", "trx"), []g{
 			{"request converted by ProtoTrxToTrx(in)", func(fn *ssa.Function) []Edge { return callEdges(fn, ".ProtoTrxToTrx", "errnil", argPaths("in")) }},
-			{"issuer and receiver signatures verified", func(fn *ssa.Function) []Edge { return callEdges(fn, ").VerifyIssuerReceiver", "errnil", recvPath("trx")) }},
+			{"issuer and receiver signatures verified", func(fn *ssa.Function) []Edge {
+				return callEdges(fn, ").VerifyIssuerReceiver", "errnil", recvPath("trx"))
+			}},
 			{"it was awaiting here and was removed for its receiver", func(fn *ssa.Function) []Edge {
 				return callEdges(fn, ").RemoveAwaitedTransaction", "errnil", argPaths("trx.Hash", "trx.ReceiverAddress"))
 			}},
 		}},
 		{"Confirm", ").RemoveAwaitedTransaction", argPaths("trx.Hash", "trx.ReceiverAddress"), []g{
-			{"issuer and receiver signatures verified", func(fn *ssa.Function) []Edge { return callEdges(fn, ").VerifyIssuerReceiver", "errnil", recvPath("trx")) }},
+			{"issuer and receiver signatures verified", func(fn *ssa.Function) []Edge {
+				return callEdges(fn, ").VerifyIssuerReceiver", "errnil", recvPath("trx"))
+			}},
 		}},
 		{"Reject", ").RemoveAwaitedTransaction", argPaths("in.Data", "in.Address"), []g{
 			{"request signed by the removing address over the transaction hash", verifyReq},
